@@ -66,6 +66,33 @@ def boundary_funcs(rng, prefix, stats):
     return defs, fs
 
 
+COPY_ELEMS = ["u8", "s8", "u16", "s16", "u32", "s32", "u64", "s64", "f32", "f64", "bool", "char"]
+
+
+def copy_flist(rng):
+    """a fixed-length list whose elements are Copy in Rust (scalars, nested fixed-length lists, tuples of scalars)"""
+    e = rng.choice(COPY_ELEMS)
+    r = rng.random()
+    if r < 0.2: e = f"list<{e}, {rng.choice([1, 2, 3])}>"
+    elif r < 0.35: e = f"tuple<{e}, {rng.choice(COPY_ELEMS)}>"
+    return f"list<{e}, {rng.choice([1, 2, 3, 4, 5])}>"
+
+
+def flist_funcs(rng, prefix, stats):
+    """functions with fixed-length lists of Copy elements: among at most 4 flat async-lowered parameters (abi::deallocate,
+    repaired in /repo 0252795), beyond 4 (deallocate_indirect), next to strings / lists, and in results"""
+    fs = []
+    for i in range(2):
+        ps = [copy_flist(rng)]
+        for _ in range(rng.choice([0, 0, 1, 2, 3])):
+            ps.append(rng.choice(COPY_ELEMS + ["string", "list<u8>", "option<u32>", copy_flist(rng)]))
+        rng.shuffle(ps)
+        r = rng.choice([None, copy_flist(rng), f"tuple<{copy_flist(rng)}, string>", f"option<{copy_flist(rng)}>", "u32", "string"])
+        stats["flist-copy:functions"] = stats.get("flist-copy:functions", 0) + 1
+        fs.append(f"  {prefix}{i}: func({', '.join(f'p{j}: {t}' for j, t in enumerate(ps))})" + (f" -> {r}" if r else "") + ";")
+    return fs
+
+
 def gen_case(rng, features, stats, nfuncs=3):
     same = rng.random() < 0.35
     parts = ["package t:wX;"]
@@ -74,6 +101,8 @@ def gen_case(rng, features, stats, nfuncs=3):
         text = bc.gen_iface(rng, name, nfuncs, features, 3, 5, imported, False, stats)
         lines = text.split("\n")
         defs, fs = boundary_funcs(rng, "b", stats)
+        if rng.random() < 0.5:
+            fs += flist_funcs(rng, "c", stats)
         return "\n".join(lines[:1] + defs + lines[1:-1] + fs + lines[-1:])
     if same:
         parts.append(iface("i", True))
@@ -179,6 +208,41 @@ def prune_mine(keep=16):
         shutil.rmtree(os.path.join(bc.BIND, d), ignore_errors=True)
 
 
+class DroppedItem(str):
+    """first rustc error line of an item that did not compile (a str, for messages) + every located error + the text"""
+    def __new__(cls, first, errors, text):
+        o = super().__new__(cls, first)
+        o.errors, o.text = errors, text
+        return o
+
+
+def locate_in_bindings(lines, ln):
+    """which generated function an error line belongs to: {"fn": name, "kind": async-import | async-export | other, "part": …}"""
+    part, kind, fn = "", "other", None
+    for i in range(min(ln, len(lines)) - 1, -1, -1):
+        l = lines[i]
+        if not part:
+            for key, nm in (("unsafe fn params_lower(", "params_lower"), ("unsafe fn results_lift(", "results_lift"),
+                            ("unsafe fn params_dealloc_lists", "params_dealloc"), ("type Params =", "type-params"),
+                            ("unsafe fn call_import(", "call_import"), ("start_task(async move {", "async-block")):
+                if key in l:
+                    part = nm if i != ln - 1 or nm != "type-params" else "type-params"
+                    break
+        m = re.search(r"pub async fn (\w+)\(", l)
+        if m:
+            kind, fn = "async-import", m.group(1)
+            if i == ln - 1: part = "signature"
+            break
+        m = re.search(r"pub unsafe fn _export_(\w+)_cabi<", l)
+        if m:
+            kind, fn = "async-export" if part == "async-block" or any("start_task(async move {" in x for x in lines[i:ln]) else "sync-export", m.group(1)
+            break
+        if re.search(r"^\s*pub (unsafe )?fn |^\s*pub mod |^\s*pub trait ", l) and i != ln - 1:
+            break
+    if ln - 1 < len(lines) and "type Params =" in lines[ln - 1]: part = "type-params"
+    return {"fn": fn, "kind": kind, "part": part}
+
+
 def build_batch(c, name, items, emitter, max_retries=3, target=ASYNC_TARGET):
     """as bc.build_batches, with AsyncBatch; a case whose sync or async item does not compile is dropped as a whole"""
     dropped, live, index_map = {}, list(items), list(range(len(items)))
@@ -196,8 +260,17 @@ def build_batch(c, name, items, emitter, max_retries=3, target=ASYNC_TARGET):
             c.broken.append((f"bind-native build {name}", b.compile_errors[-3000:]))
             return None, dropped
         for k in bad:
-            m = re.search(r"(error[^\n]*)\n\s*--> src/w%d\.rs" % k, b.compile_errors)
-            dropped[index_map[k]] = (m.group(1) if m else "error")[:300]
+            # every rustc error of the item with its position in the generated text (read now: a retry renumbers the files)
+            try:
+                text = open(os.path.join(b.dir, "src", f"w{k}.rs")).read().split("\n")
+            except OSError:
+                text = []
+            errs = []
+            for em in re.finditer(r"(error(?:\[E\d+\])?: [^\n]*)\n\s*--> src/w%d\.rs:(\d+):(\d+)" % k, b.compile_errors):
+                ln = int(em.group(2))
+                errs.append({"msg": em.group(1)[:300], "line": ln, "src": (text[ln - 1].strip()[:300] if 0 < ln <= len(text) else ""),
+                             "where": locate_in_bindings(text, ln)})
+            dropped[index_map[k]] = DroppedItem(errs[0]["msg"] if errs else "error", errs, "\n".join(text))
         keep = [k for k in range(len(live)) if k not in bad]
         live = [live[k] for k in keep]
         index_map = [index_map[k] for k in keep]
@@ -376,7 +449,13 @@ def export_findings(m, o, sync):
     host = bc.nz(list(o.get("hostblocks", [])) + [b for sub in o.get("subcalls", []) for b in sub.get("hostblocks", [])])
     if led["freed_h"] != host:
         missing = [b for b in host if b not in led["freed_h"]]
-        cls = "async-export-param-record-not-freed" if (m["indirect_params"] and missing and missing[0] == host[0]) else \
+        extra = [b for b in led["freed_h"] if b not in host]
+        # known class ONLY IF the function takes its parameters through a host-allocated record, the one block that is not
+        # freed is exactly that record (first block of the host's image: address, size and alignment of the parameter
+        # tuple) and every other host buffer was freed exactly once
+        record = tuple(o["hostblocks"][0]) if (m["indirect_params"] and o.get("host_indirect") and o.get("hostblocks")
+                                                 and o.get("flat_args") and o["flat_args"][0] == o["hostblocks"][0][0]) else None
+        cls = "async-export-param-record-not-freed" if (record is not None and missing == [record] and not extra) else \
               ("host-buffer-not-released" if missing else "host-buffer-released-twice")
         fs.append((cls, "buffers the host allocated for the arguments of an async export are not freed exactly once by the time the task has exited",
                    {"host_blocks": host, "freed": led["freed_h"]}))
@@ -525,13 +604,54 @@ def async_summary(kind, o):
 
 # ---------------------------------------------------------------------------------- classification of build failures
 
-def classify_async_compile_error(err, cfg):
-    """stable class keys of the known ways the ASYNC bindings fail to compile although the sync twin compiles"""
-    if ("implicit elided lifetime" in err or "missing lifetime specifier" in err or "into_bytes" in err) and "own=owning" not in cfg:
-        return "async:rust-does-not-compile:borrowed-parameter-types"
-    if "cannot move out of type" in err and "non-copy array" in err:
-        return "async:rust-does-not-compile:fixed-list-non-copy-elements"
-    return "async:rust-does-not-compile:other"
+def borrowed_named_types(text):
+    """named generated types that carry a lifetime parameter (rendered in borrowed form)"""
+    return set(re.findall(r"pub (?:struct|enum) (\w+)<'a\s*,?\s*>", text))
+
+
+def nonflat_copy(t):
+    """type tree contains a heap-owning (non-Copy in Rust) type"""
+    if isinstance(t, str): return t in ("string", "own")
+    if t[0] in ("list", "map"): return True
+    return any(nonflat_copy(x) for x in t[1:] if not (isinstance(x, str) and x.isdigit()))
+
+
+def flist_of_non_copy(t):
+    """type tree has a fixed-length list whose element type is not Copy"""
+    if isinstance(t, str): return False
+    if t[0] == "flist" and nonflat_copy(t[1]): return True
+    return any(flist_of_non_copy(x) for x in t[1:] if not isinstance(x, str))
+
+
+def classify_async_compile_error(err, cfg, sync_compiles, result_types):
+    """Stable class keys of the known ways the ASYNC bindings fail to compile.  A class is assigned only if the sync
+    twin compiles and EVERY rustc error of the item matches the class's clause at the class's position:
+      borrowed-parameter-types      config is a borrowing ownership mode; each error is E0726/E0106 on the signature or the
+                                    `type Params` of an async IMPORT naming a generated type that has a lifetime parameter,
+                                    or E0599 `into_bytes` inside that import's `params_lower`
+      fixed-list-non-copy-elements  each error is E0508 (move out of a non-copy array) inside the async block of an async
+                                    EXPORT whose WIT result type contains a fixed-length list of non-Copy elements
+    anything else (other error, other place, sync twin broken too) is `…:other` = not a known finding."""
+    other = "async:rust-does-not-compile:other"
+    errs = getattr(err, "errors", None)
+    if not sync_compiles or not errs:
+        return other
+    borrowed = borrowed_named_types(getattr(err, "text", ""))
+
+    def is_borrowed(e):
+        w = e["where"]
+        if "own=owning" in cfg or w["kind"] != "async-import": return False
+        if ("E0726" in e["msg"] or "E0106" in e["msg"]) and w["part"] in ("signature", "type-params"):
+            return any(t in borrowed for t in re.findall(r"\b([A-Z]\w*)\b", e["src"]))
+        return "E0599" in e["msg"] and "into_bytes" in e["msg"] and w["part"] == "params_lower"
+
+    def is_flist(e):
+        w = e["where"]
+        return ("E0508" in e["msg"] and "non-copy array" in e["msg"] and w["kind"] == "async-export"
+                and flist_of_non_copy(bc.parse(result_types.get(w["fn"], "u8"))) if result_types.get(w["fn"]) else False)
+    if all(is_borrowed(e) for e in errs): return "async:rust-does-not-compile:borrowed-parameter-types"
+    if all(is_flist(e) for e in errs): return "async:rust-does-not-compile:fixed-list-non-copy-elements"
+    return other
 
 
 def one_function_world(wit, iface, fname):
@@ -579,10 +699,9 @@ def shrink_generator_failure(emitter, cfg, wit, message):
 
 
 def classify_generator_failure(emitter, cfg, wit, message):
+    """no generator failure is a known finding (the fixed-length-list `todo!()` of abi::deallocate was repaired in /repo
+    0252795): the class is generic, the witness is shrunk to the functions on which the generator alone fails"""
     bad, imp, exp = shrink_generator_failure(emitter, cfg, wit, message)
-    if bad and message.startswith("not yet implemented") and all(
-            iface == imp and re.search(r"list<[^()]*,\s*\d+>", line.split("->")[0]) for iface, _, line, _ in bad):
-        return "async:generator-todo:fixed-list-flat-import-param", bad
     return "async:rust-generator-failed", bad
 
 
@@ -772,7 +891,9 @@ def run(c):
     if not emitter or not host or not ahost:
         return
     # seeded worlds stay inside what the async bindings can express today; the shapes outside are recorded findings,
-    # replayed from corpus/C08-known.txt on every run (each must still fail the same way)
+    # replayed from corpus/C08-known.txt on every run (each must still fail the same way).  Fixed-length lists appear
+    # with Copy elements only (flist_funcs): non-Copy elements do not compile as sync import parameters (C05 finding)
+    # nor as async export results (C08 finding), and leak below deallocate_indirect (C03/C06 finding)
     features = set(bc.BASE_FEATURES) - {"flist"}
     stats = {}
     corpus = load_corpus(os.path.join(VERIF, "corpus", "C08.txt"))
@@ -881,9 +1002,17 @@ def run(c):
             k = g // 2
             ndropped += 1
             if g % 2:
-                cls = classify_async_compile_error(e, meta[k]["config"])
+                # the sync twin (item g-1) tells whether it compiles and the WIT result type of every exported function
+                sync_ok = batch is not None and (g - 1) in [2 * b0 + x for x in batch.index_map] and (g - 1 - 2 * b0) not in dropped
+                rts = {}
+                if sync_ok:
+                    ls = [2 * b0 + x for x in batch.index_map].index(g - 1)
+                    rts = {rust_ident(m["name"]): m["result"] for m in batch.manifest
+                           if m.get("item") == ls and m.get("dir") == "export" and m.get("result") is not None}
+                cls = classify_async_compile_error(e, meta[k]["config"], sync_ok, rts)
                 violation(cls, "the async bindings generated for a world whose sync bindings compile do not compile, so no value can cross (" + e + ")",
-                          k, None, {"directives": meta[k]["directives"], "rustc": e})
+                          k, None, {"directives": meta[k]["directives"], "rustc": e,
+                                    "errors": [{"msg": x["msg"], "line": x["line"], "src": x["src"], **x["where"]} for x in getattr(e, "errors", [])][:6]})
             else:
                 violation("sync:" + bc.classify_compile_error(e), "the sync twin's generated Rust does not compile (" + e + ")", k, None, {"rustc": e})
         if batch is None:
@@ -1125,6 +1254,6 @@ def run(c):
         "hooks H1 (runtime built-ins as extern symbols) and H3 (generated import shims as extern symbols) are on; the wasm32 text of the bindings is untouched",
         "user code is the stub emitted by bind-native: it drops every argument it receives, then finishes / yields / awaits one async import, and returns freshly built values",
         "block_on of the real runtime drives async imports outside an export task; cancellation = dropping the call's future after a scripted number of Pending polls",
-        "seeded worlds use ownership=owning and no fixed-length lists (the async bindings of the other shapes do not generate/compile: recorded findings, replayed from corpus/C08-known.txt)",
+        "seeded worlds use ownership=owning, and fixed-length lists with Copy elements only (the async bindings of named borrowed parameter types and of fixed-length lists of non-Copy elements in export results do not compile: two recorded findings, replayed from corpus/C08-known.txt)",
         "future/stream/error-context payload types and exported resources are out of scope here (C18-C20, C07)",
     ]
